@@ -88,6 +88,8 @@ type runState struct {
 	deliv    map[string][]int        // (origin,id) -> ops during which it was published
 	classes  map[string]int
 	fail     *failure
+	lastLate int          // peer of the most recent held-back disconnect
+	pend     map[int]bool // peers that stopped being neighbours while their disconnect event is still on its way
 }
 
 func key(origin string, id uint64) string { return fmt.Sprintf("%s/%d", origin, id) }
@@ -189,7 +191,34 @@ func (rs *runState) apply(o op) {
 		_ = n.svc.RemoveGroup(n.groups[rs.group(o)], model.GTypeJoin)
 	case "unobserve":
 		_ = n.svc.RemoveGroup(n.groups[rs.group(o)], model.GTypeObserve)
+	case "disc-late":
+		// a neighbour is gone for the route table; the disconnect event is delivered at the end of the step
+		n.mu.Lock()
+		var elig []int
+		for i := 0; i < n.np; i++ {
+			if n.neigh[i] {
+				elig = append(elig, i)
+			}
+		}
+		if len(elig) > 0 {
+			p := elig[rs.peer(o.P)%len(elig)]
+			n.neigh[p] = false
+			rs.pend[p] = true
+			rs.lastLate = p
+		}
+		n.mu.Unlock()
+		if len(elig) > 0 {
+			rs.class("ev:disconnect(event-held-back)")
+		}
+	case "hs-late":
+		// keep-alive handshake (over a relay) of the peer whose disconnect event is still on its way
+		if rs.pend[rs.lastLate] {
+			rs.hsIn(rs.lastLate)
+			rs.checkAfterAdd(rs.lastLate)
+			rs.class("ev:handshake-in")
+		}
 	case "conn-out", "conn-in", "disc":
+		rs.flushPending() // kademlia publishes a peer's disconnect before any later connect
 		// the peer operand is resolved among the peers the event is possible for
 		// (neighbours for a disconnect, non-neighbours for a connect), if there are any
 		p := rs.peer(o.P)
@@ -227,6 +256,7 @@ func (rs *runState) apply(o op) {
 			rs.class("ev:connect-in")
 		default:
 			rs.hsIn(p) // state does not allow the event: plain re-handshake (keep-alive ping of the peer)
+			rs.checkAfterAdd(p)
 			rs.class("ev:handshake-in")
 		}
 	case "hs-in":
@@ -237,6 +267,7 @@ func (rs *runState) apply(o op) {
 			n.mu.Unlock()
 		}
 		rs.hsIn(p)
+		rs.checkAfterAdd(p)
 		rs.class("ev:handshake-in")
 	case "set-gids":
 		p := rs.peer(o.P)
@@ -364,6 +395,47 @@ func (rs *runState) applyStep(step []op) {
 	}()
 	for _, o := range step {
 		rs.apply(o)
+	}
+	rs.flushPending()
+}
+
+// flushPending delivers the disconnect events that "disc-late" held back (the route table answers
+// from kademlia's connected set at once, the event reaches the service through a channel later).
+func (rs *runState) flushPending() {
+	for p := 0; p < rs.n.np; p++ {
+		if rs.pend[p] {
+			delete(rs.pend, p)
+			rs.n.deliver(p2p.PeerInfo{Overlay: rs.n.peers[p], State: p2p.PeerStateDisconnect})
+		}
+	}
+}
+
+// checkAfterAdd: right after an incoming handshake of peer p every group p announced has just
+// processed add(p, keep) and consulted the neighbour relation: p may not be listed as connected
+// there unless it is a neighbour now (asserted only inside the window of a held-back event;
+// outside it the step-end check covers the same).
+func (rs *runState) checkAfterAdd(p int) {
+	n := rs.n
+	n.mu.Lock()
+	isN := n.neigh[p]
+	announced := map[string]bool{}
+	for _, g := range n.gids[p] {
+		announced[n.groups[g].String()] = true
+	}
+	n.mu.Unlock()
+	if isN || !rs.pend[p] {
+		return
+	}
+	rs.class("handshake-inside-pending-disconnect-window")
+	for _, gi := range n.svc.Snapshot().Groups {
+		if !announced[gi.GroupID.String()] {
+			continue
+		}
+		for _, pi := range gi.ConnectedInfo.ConnectedPeers {
+			if pi != nil && pi.Address.Equal(n.peers[p]) {
+				rs.failf("C38/connected-not-neighbour", "right after an incoming handshake of %s (no longer a neighbour, disconnect event still pending): listed as connected in %s", rs.name(n.peers[p].String()), rs.gname(gi.GroupID))
+			}
+		}
 	}
 }
 
@@ -711,7 +783,7 @@ const (
 
 func runCase(m *monitor, c kase) *runState {
 	rs := &runState{c: c, mc: map[int]mcOp{}, last: map[string]string{}, inj: map[string]int{},
-		fwdOps: map[string]map[int]bool{}, classes: map[string]int{}}
+		fwdOps: map[string]map[int]bool{}, classes: map[string]int{}, pend: map[int]bool{}}
 	salt := atomic.AddUint64(&saltCtr, 1)
 	labelled(strconv.FormatUint(salt, 10), func() { rs.n = newNode(salt, c.NPeers, c.NGroups, c.Gids, c.Find) })
 	n := rs.n
@@ -787,7 +859,7 @@ var opKinds = []struct {
 	w int
 }{
 	{"join", 3}, {"observe", 1}, {"leave", 1}, {"unobserve", 1}, {"join-many", 1},
-	{"conn-out", 3}, {"conn-in", 4}, {"disc", 4}, {"hs-in", 4}, {"set-gids", 1},
+	{"conn-out", 3}, {"conn-in", 4}, {"disc", 4}, {"disc-late", 4}, {"hs-in", 5}, {"set-gids", 1},
 	{"notify-join", 2}, {"notify-leave", 2}, {"unreach", 1},
 	{"sub-mc", 2}, {"mc-in", 5}, {"mc-dup", 5}, {"mc-echo", 2}, {"mc-local", 2}, {"mc-burst", 2},
 }
@@ -813,7 +885,7 @@ func genOp(t *rapid.T, c *kase) op {
 		o.KP = rapid.IntRange(0, 2).Draw(t, "kp")
 	case "leave", "unobserve", "sub-mc", "mc-local":
 		o.G = []int{g}
-	case "conn-out", "conn-in", "disc", "unreach":
+	case "conn-out", "conn-in", "disc", "disc-late", "unreach":
 		o.P = rapid.IntRange(0, c.NPeers-1).Draw(t, "p")
 	case "hs-in":
 		o.P = rapid.IntRange(0, c.NPeers-1).Draw(t, "p")
@@ -882,7 +954,11 @@ func genCase(t *rapid.T) kase {
 		k := rapid.SampledFrom([]int{1, 1, 1, 1, 2, 2, 3}).Draw(t, "ops-in-step")
 		var st []op
 		for i := 0; i < k; i++ {
-			st = append(st, genOp(t, &c))
+			o := genOp(t, &c)
+			st = append(st, o)
+			if o.K == "disc-late" && rapid.IntRange(0, 3).Draw(t, "late-handshake") != 0 {
+				st = append(st, op{K: "hs-late"})
+			}
 		}
 		c.Steps = append(c.Steps, st)
 	}
@@ -935,7 +1011,7 @@ func reportFirst(t interface{ Fatalf(string, ...interface{}) }, r *evid.Rec, sta
 	}
 }
 
-const rule = "rapid: batches of independent cases, each = one real multicast.Service (Dev, Started) over stub kad/route/streamer/SubPub, 3-5 peers, 1-3 groups, per-peer claimed group lists and find-group answers, and 4-9 steps of 1-3 events (AddGroup join/observe with node lists incl. >20 nodes for the prune path, RemoveGroup, neighbour connect-out/-in and disconnect through the registered peer-state notifier, incoming handshakes with group lists, notify join/leave, unreachable peers, local Multicast, incoming multicast streams with repeated (origin,id) from several senders, own-origin echoes, concurrent copies); after every step, at quiescence (sentinel events behind the real ones consumed and the event loop the only goroutine left that carries the service's pprof label): connected/kept/known of every group pairwise disjoint and duplicate-free in Snapshot and GetGroupPeers, connected subset of current neighbours, each (origin,id) published to group/multicastMsg at most once, forwarded during at most one op, never back to its sender, own-origin echoes neither delivered nor forwarded; non-trivial = some peer seen in two different lists of one group over time, or some (origin,id) injected more than once; distinct by hash of the case"
+const rule = "rapid: batches of independent cases, each = one real multicast.Service (Dev, Started) over stub kad/route/streamer/SubPub, 3-5 peers, 1-3 groups, per-peer claimed group lists and find-group answers, and 4-9 steps of 1-3 events (AddGroup join/observe with node lists incl. >20 nodes for the prune path, RemoveGroup, neighbour connect-out/-in and disconnect through the registered peer-state notifier, disconnects whose event is held back until the end of the step (the route table already answers 'not a neighbour'; right after an incoming handshake of such a peer it may not be listed as connected in the groups it announced), incoming handshakes with group lists, notify join/leave, unreachable peers, local Multicast, incoming multicast streams with repeated (origin,id) from several senders, own-origin echoes, concurrent copies); after every step, at quiescence (sentinel events behind the real ones consumed and the event loop the only goroutine left that carries the service's pprof label): connected/kept/known of every group pairwise disjoint and duplicate-free in Snapshot and GetGroupPeers, connected subset of current neighbours, each (origin,id) published to group/multicastMsg at most once, forwarded during at most one op, never back to its sender, own-origin echoes neither delivered nor forwarded; non-trivial = some peer seen in two different lists of one group over time, or some (origin,id) injected more than once; distinct by hash of the case"
 
 // ---- tests ------------------------------------------------------------------------------
 
